@@ -136,7 +136,17 @@ def main(tier):
         # the same judgement on the SECOND evaluation of a program parsed once (Parse; RunAfterParsed; GetDetailText; RunAfterParsed)
         nre = len(exprs) // 3
         glines2 = [f"detailrerun {cfg},L100000 {r.getrandbits(128):032x} {hx(src)}" for src, cfg, chks in exprs[:nre]]
+        # … also when text the parser did not take follows the program (the buffer behind the annotated terms is the host's text)
+        glines2 += [f"detailrerun {cfg},L100000 {r.getrandbits(128):032x} {hx(src + tl)}" for src, cfg, chks in exprs[nre:nre + nre // 2]
+                    for tl in (r.choice((" 理由", " x y z", "  # 攻击检定 的 说明 文字", " )", " 'open")),)]
         out2 = run.go_only("detailrerun", glines2, go_timeout=300)
+        for ln, g in out2[nre:]:
+            if g.startswith(("panic", "died")):
+                run.violation("detail:crash", {"case": ln, "source": unhx(ln.split()[3]).decode("utf-8", "replace"), "implementation": g[:300]})
+            elif g.startswith("ok ") and g.endswith("pure=0"):
+                run.violation("detail:observing-changes-state", {"case": ln, "source": unhx(ln.split()[3]).decode("utf-8", "replace"), "implementation": g[:400],
+                                                                 "what": "Parse once; RunAfterParsed; GetDetailText; RunAfterParsed — Matched / RestInput / result / variables / seed moved"})
+        out2 = out2[:nre]
         for (src, cfg, chks), (ln, g) in list(zip(exprs, out)) + list(zip(exprs[:nre], out2)):
             rep = {"source": src, "cfg": cfg, "implementation": g[:400]}
             m = re.match(r"ok i(-?\d+) d=(\S+) m=(\S+) idem=(\d) pure=(\d)$", g)
